@@ -11,7 +11,7 @@ learned (once) or given, boots/time = those of the most recent accepted message,
 localised to that engine id, msgData decryptable under the privacy key localised the same way."""
 import json, asyncio, itertools, random
 from vlib import env, tlc, trace, scripts, apidrv, rawdrv, agent as ag, sesscheck
-from vlib.report import Check
+from vlib.report import Check, confirm_by_replay
 from vlib.env import ToolError, SEED
 
 ENGINES = {"A5": bytes([0x80, 0, 0x1f, 0x88, 4]), "A17": bytes([0x80, 0, 0x1f, 0x88, 0x80] + list(range(1, 13))),
@@ -212,7 +212,8 @@ def run(tier):
         nth = sum(1 for e in rec.events[a:idxf + 1] if e["ev"] == ev["ev"])
         sig = dict(client=info["kind"], auth=info["auth"], priv=info["priv"], kt=info["kt"], given=info["given"], ev=ev["ev"], op=ev.get("op"), got=ev.get("exc") or "ok")
         chk.violation(sig, "%s auth=%s priv=%s kt=%s engine %s (%s) calls=%s: %s #%d (%s) %s" % (info["kind"], info["auth"], info["priv"], info["kt"], info["engine"],
-                      "given" if info["given"] else "discovered", info["calls"], ev["ev"], nth, ev.get("op"), ev.get("exc") or ""), dict(info=info, event_index=idxf - a))
+                      "given" if info["given"] else "discovered", info["calls"], ev["ev"], nth, ev.get("op"), ev.get("exc") or ""), dict(info=info, event_index=idxf - a),
+                      confirm=confirm_by_replay(replay, dict(info=info)))
     chk.sample(dict(kind="scenario", info=runs[2][2]))
     return chk.finish()
 
